@@ -393,3 +393,39 @@ Print Assumptions c02_no_silent_stall_g_every_step.
 Print Assumptions c02_no_silent_stall_g_every_trace.
 Print Assumptions c02_rto_mode_armed_nonvacuous.
 Print Assumptions c02_no_silent_stall_g_nonvacuous.
+
+(* ---- c02_rto_armed, the FIN half (Conn/C02_Fin2.v): for every poll that starts with our FIN number
+   already allocated (local FIN state), with the clause true before the poll, and - in FinWait1 -
+   the FIN numbered right after the last segment of the table.  [fin_alloc_guard] is a boolean
+   function of the fingerprint before the step: assumed-and-monitored.  Not covered: the poll in
+   which the FIN number is allocated; polls from FinWait1 states in which an MTU probe was popped
+   and re-split earlier (the FIN then no longer follows the table). ---- *)
+From Utp Require Import Conn.C02_Fin2.
+
+Theorem c02_poll_fin_armed : forall (CC : Type) (cci : cc_iface CC) (s s' : vsock CC),
+  K0 s -> poll cci s = (s', PollPending) -> v_transport_pending s' = false -> ti s' /\ FO s'.
+Proof. exact @poll_fin_armed. Qed.
+
+Theorem c02_rto_armed_fin_g_every_step_partial : forall (CC : Type) (cci : cc_iface CC) (cfg : vconfig) (s : vsock CC) (o : vop),
+  ti s -> c02_rto_armed_fin_g cfg (VSock_Lemmas.fstep_of cci s o) = true.
+Proof. exact @c02_rto_armed_fin_g_step. Qed.
+
+Theorem c02_rto_armed_fin_g_every_trace_partial : forall (CC : Type) (cci : cc_iface CC) (cfg : vconfig)
+    (mk : Z -> Z -> CC) (c : vconfig) (s0 : vsock CC) (ops : list vop),
+  vsock_new cci mk c = Some s0 -> forallb (c02_rto_armed_fin_g cfg) (ftrace cci s0 ops) = true.
+Proof. exact @c02_rto_armed_fin_g_trace. Qed.
+
+Theorem c02_rto_armed_fin_g_nonvacuous :
+  exists w cfg ops,
+    vconfig_ok cfg = true /\ Forall op_msg_ok ops /\
+    existsb (fun st => fin_alloc_guard (fs_pre st) && fin_out (fs_post st) &&
+                       negb (f_transport_pending (fs_post st)) &&
+                       match fs_result st with FrPoll PollPending _ _ _ => true | _ => false end)
+            (wtrace w cfg ops) = true /\
+    forallb (c02_rto_armed cfg) (wtrace w cfg ops) = true.
+Proof. exact rto_armed_fin_g_nonvacuous. Qed.
+
+Print Assumptions c02_poll_fin_armed.
+Print Assumptions c02_rto_armed_fin_g_every_step_partial.
+Print Assumptions c02_rto_armed_fin_g_every_trace_partial.
+Print Assumptions c02_rto_armed_fin_g_nonvacuous.
